@@ -259,8 +259,9 @@ def is_segment_chain(files_old_to_new, hist):
 
 
 class Monitor:
-    def __init__(self, ctx, cfg, ops):
+    def __init__(self, ctx, cfg, ops, report=None):
         self.ctx, self.cfg, self.ops = ctx, cfg, ops
+        self.report = report      # world runs: one monitor per log, violations go through the world's reporter
         self.rot = cfg['rotating'] and cfg['maxbytes'] > 0
         self.mb, self.N = cfg['maxbytes'], cfg['backups']
         self.hist = b''
@@ -271,7 +272,15 @@ class Monitor:
         self.dropped = 0
         self.k = 0
 
+    def begin_clear(self):
+        """a clearing operation that itself logs (clearLog) has begun: until it completes the handler need not be at the path"""
+        self.seen_clear = True
+        self.attached = False
+        self.mark = None
+
     def bad(self, kind, what):
+        if self.report is not None:
+            return self.report(kind, what)
         self.ctx.violation(kind, what + ' (after op %d: %s)' % (self.k, op_line(self.ops[self.k])),
                            {'cfg': self.cfg, 'ops': [list_op(o) for o in self.ops[:self.k + 1]]})
 
@@ -285,10 +294,12 @@ class Monitor:
             self.mark = None
             if o[1] == 0: self.attached = False
             if o[0] == 'extreplace': self.seen_replace = True
-        if o[0] in ('clear', 'reopen'):
+        if o[0] in ('clear', 'reopen', 'opclear', 'opreopen'):
+            # 'opclear' / 'opreopen': a whole operator-level operation (clearLog, SIGUSR2 ...) has completed; o[1] of
+            # 'opclear' = what the operation itself logged while it ran
             self.attached = True
             self.mark = len(self.hist)
-            if o[0] == 'clear': self.seen_clear = True
+            if o[0] in ('clear', 'opclear'): self.seen_clear = True
         if err != 'ok':
             self.bad('exception-escaped-log-operation', 'handler operation raised or swallowed an exception: ' + err)
         if other:
@@ -343,15 +354,20 @@ class Monitor:
             if o[0] == 'write' and self.attached and 0 in prev and ls.get(0) != prev[0] + o[1]:
                 self.bad('write-not-at-configured-path', 'plain handler: write did not append to the configured path')
         # clear / reopen: the handler is at the configured path afterwards, nothing written later is lost
-        if o[0] in ('clear', 'reopen'):
+        if o[0] in ('clear', 'reopen', 'opclear', 'opreopen'):
             if 0 not in ls:
                 self.bad('no-file-at-configured-path', 'no log file after ' + o[0])
             elif o[0] == 'clear' and ls[0] != b'':
                 self.bad('clear-did-not-empty-log', 'log has %d bytes after clear' % len(ls[0]))
-            elif o[0] == 'reopen' and 0 in prev and ls[0] != prev[0]:
+            elif o[0] == 'opclear' and not o[1].endswith(ls[0]):
+                self.bad('clear-did-not-empty-log', 'log has %d bytes after the clear which the operation did not write itself' % len(ls[0]))
+            elif o[0] in ('reopen', 'opreopen') and 0 in prev and ls[0] != prev[0]:
                 self.bad('reopen-changed-log', 'reopen changed the log contents')
-            if o[0] == 'clear' and any(ls.get(i) != prev.get(i) for i in set(ls) | set(prev) if i > 0):
+            if o[0] in ('clear', 'opclear') and any(ls.get(i) != prev.get(i) for i in set(ls) | set(prev) if i > 0):
                 self.bad('clear-touched-backups', 'clear changed a backup file')
+        # a handler bound to the configured path leaves its output in a file *at* that path
+        if o[0] == 'write' and self.attached and 0 not in ls:
+            self.bad('write-left-no-file-at-configured-path', 'after a write there is no file at the configured path')
         if self.mark is not None and o[0] == 'write' and not self.seen_replace:
             w = self.hist[self.mark:]
             if not (chain.endswith(w) or w.endswith(chain)):
@@ -423,6 +439,198 @@ class Runner:
             1 if cfg['rotating'] else 0, cfg['maxbytes'], cfg['backups'], show), model_ops))
         self.impls.append(lines)
         return lines
+
+
+class WorldRunner:
+    """the clear / reopen fan-out through the real code (c19_world.World): one monitor per log, one model case per world"""
+    def __init__(self, ctx):
+        self.ctx = ctx
+        self.cases, self.impls = [], []
+
+    def one(self, w, ops, monitor=True):
+        from props import c19_world as W
+        ctx = self.ctx
+        sizes = [w['backups']] + [c[1] for g in w['groups'] for p in g for c in (p['out'], p['err']) if isinstance(c, list)]
+        show = max(sizes) + 2
+        world = W.World(os.path.join(tempfile.mkdtemp(dir=ctx.scratch), 'd'), w)
+        logids = list(world.dirs)
+        state = {'k': 0}
+        def reporter(lid):
+            def report(kind, what):
+                k = state['k']
+                ctx.violation(kind, '%s log: %s (after world op %d: %s)' % (
+                    'activity' if lid == 'act' else 'child %s' % lid, what, k, ' '.join(str(x) for x in W.op_json(ops[k]))),
+                    {'world': w, 'ops': [W.op_json(o) for o in ops[:k + 1]]})
+            return report
+        mons = {lid: Monitor(ctx, world.cfgs[lid], None, report=reporter(lid)) for lid in logids}
+        model_ops, lines = [], []
+        try:
+            for k, o in enumerate(ops):
+                state['k'] = k
+                ctx.count('world-op:' + o[0])
+                evs, final, err, refused = world.run_op(o)
+                cov = {} if refused else W.covered(w, logids, o)
+                if refused: ctx.count('world-op:clearlog-refused-NO_FILE')
+                # ---- model operations and the implementation's line for each
+                kind = o[0]
+                if kind in ('log', 'chunk'):
+                    for lid, data, snap in evs:
+                        if lid == 'act':
+                            if data:
+                                model_ops.append('log ' + hexs(data)); lines.append(W.canon_world(world, snap, show, 'ok'))
+                        else:
+                            g, p_, ch = lid.split('.')
+                            model_ops.append('chunk %s %s %s %s' % (g, p_, ch, hexs(data))); lines.append(W.canon_world(world, snap, show, 'ok'))
+                    if err != 'ok' and lines:
+                        lines[-1] += ' !' + err
+                else:
+                    if kind == 'sigusr2':
+                        first = next((d for lid, d, _ in evs if lid == 'act'), b'')
+                        model_ops.append('sigusr2 ' + hexs(first))
+                    elif kind == 'clearproc':
+                        model_ops.append('clearproc %d %d' % (o[1], o[2]))
+                    elif kind == 'extremove':
+                        model_ops.append('extremove %s %d' % (o[1], o[2]))
+                    elif kind == 'extreplace':
+                        model_ops.append('extreplace %s %d %s' % (o[1], o[2], hexs(o[3])))
+                    else:
+                        model_ops.append(kind)
+                    lines.append(W.canon_world(world, final, show, err))
+                if not monitor:
+                    continue
+                # ---- monitors, per log, in the property's terms
+                if err != 'ok':
+                    reporter('act')('exception-escaped-log-operation', 'the operation raised, answered a fault or swallowed an exception: ' + err)
+                for lid in cov:
+                    if cov[lid] == 'clear':
+                        mons[lid].begin_clear()
+                inop, written = {}, set()
+                for lid, data, snap in evs:
+                    if not data:
+                        continue
+                    ls, other = snap[lid]
+                    mons[lid].step(k, ('write', data), ls, other, 'ok')
+                    inop[lid] = inop.get(lid, b'') + data
+                    written.add(lid)
+                    if lid in cov: ctx.count('write-during-%s:%s' % (kind, 'activity' if lid == 'act' else 'child'))
+                for lid in logids:
+                    ls, other = final[lid]
+                    if lid in cov:
+                        mons[lid].step(k, ('opclear', inop.get(lid, b'')) if cov[lid] == 'clear' else ('opreopen',), ls, other, 'ok')
+                    elif kind in ('extremove', 'extreplace') and o[1] == lid:
+                        mons[lid].step(k, (kind,) + tuple(o[2:]), ls, other, 'ok')
+                    elif lid not in written:
+                        mons[lid].step(k, ('noop',), ls, other, 'ok')
+        finally:
+            world.close()
+        ctx.count('world:%s%s' % ('nodaemon' if w['nodaemon'] else 'daemon', '+silent' if w['silent'] else ''))
+        ctx.count('world:handlers=%d' % (1 + (1 if w['nodaemon'] and not w['silent'] else 0) + (0 if w.get('extra', 'none') == 'none' else 1)))
+        ctx.count('world:act-log %s' % ('plain' if not w['maxbytes'] else 'rotating backups=0' if not w['backups'] else 'rotating'))
+        ctx.count('world:level=' + w['level'])
+        ctx.count('world:processes=%d' % sum(len(g) for g in w['groups']))
+        ctx.case_done(('world', repr(w), [W.op_json(o) for o in ops]), True)
+        self.cases.append((W.case_line(world, show), model_ops))
+        self.impls.append(lines)
+        return lines
+
+
+def gen_world(rng):
+    """a world and an operation history; after every clear / reopen kind of operation the affected logs are written again"""
+    w = {'nodaemon': rng.random() < 0.6, 'silent': rng.random() < 0.25,
+         'maxbytes': rng.choice([0, 0, 60, 100, 100, 150, 400, 50 * 1024 * 1024]), 'backups': rng.choice([0, 0, 1, 2, 10]),
+         'level': 'DEBG' if rng.random() < 0.25 else 'INFO', 'extra': rng.choice(['none'] * 8 + ['front', 'back']), 'groups': []}
+    def chan():
+        r = rng.random()
+        if r < 0.12: return None
+        mb = rng.choice([0, 4, 8, 16])
+        return [mb, rng.choice([0, 1, 2])]
+    nproc = rng.choice([0, 1, 1, 2, 2, 3])
+    for _ in range(nproc):
+        p = {'kind': 'l' if rng.random() < 0.2 else 'p', 'out': chan(), 'err': 'x' if rng.random() < 0.25 else chan()}
+        if not w['groups'] or rng.random() < 0.4:
+            w['groups'].append([])
+        w['groups'][-1].append(p)
+    procs = [(gi, pi, p) for gi, g in enumerate(w['groups']) for pi, p in enumerate(g)]
+    chans = [(gi, pi, ch) for gi, pi, p in procs for ch, key in (('o', 'out'), ('e', 'err')) if p[key] != 'x']
+    logs = ['act'] + ['%d.%d.%s' % (gi, pi, ch) for gi, pi, p in procs for ch, key in (('o', 'out'), ('e', 'err')) if isinstance(p[key], list)]
+    pay = Payload()
+    n = [0]
+    def msg():
+        n[0] += 1
+        base = w['maxbytes'] if 0 < w['maxbytes'] < 1000 else 60
+        pad = rng.choice([0, 0, 3, max(0, base - 33), max(0, base - 32), max(0, base - 31), base, 2 * base])
+        return ('m%d' % n[0] + '.' * pad)[:max(pad, 3)]
+    def chunk(c=None):
+        gi, pi, ch = c or rng.choice(chans)
+        cfg = w['groups'][gi][pi]['out' if ch == 'o' else 'err']
+        base = (cfg[0] if isinstance(cfg, list) and cfg[0] else 6)
+        sz = rng.choice([1, 1, 2, base - 1, base, base + 1, 2 * base + 1])
+        return ('chunk', gi, pi, ch, pay.take(max(sz, 1)))
+    ops = []
+    for _ in range(rng.randrange(5, 22)):
+        r = rng.random()
+        if r < 0.30 or not chans and r < 0.55:
+            ops.append(('log', msg()))
+        elif r < 0.55:
+            ops.append(chunk())
+        elif r < 0.88:
+            k = rng.choice(['clearlog', 'clearlog', 'sigusr2', 'sigusr2', 'optreopen'] + (['clearproc', 'clearproc', 'clearall'] if procs else []))
+            if k == 'clearproc':
+                gi, pi, _ = rng.choice(procs)
+                ops.append(('clearproc', gi, pi))
+            else:
+                ops.append((k,))
+            # the history goes on: what is written after the operation is what the property is about
+            if rng.random() < 0.85:
+                for _ in range(rng.randrange(1, 4)):
+                    ops.append(('log', msg()))
+                for c in chans:
+                    if rng.random() < 0.7:
+                        ops.append(chunk(c))
+        else:
+            lid = rng.choice(logs)
+            i = 0 if rng.random() < 0.75 else rng.randrange(0, 3)
+            ops.append(('extremove', lid, i) if rng.random() < 0.65 else ('extreplace', lid, i, bytes(rng.choice(b'XYZ') for _ in range(rng.choice([0, 3, 9])))))
+            if rng.random() < 0.6:
+                ops.append((rng.choice(['sigusr2', 'sigusr2', 'optreopen', 'clearlog', 'clearall' if procs else 'sigusr2']),))
+    return w, ops
+
+
+def _world(nodaemon, silent, maxbytes, backups, level='INFO', extra='none', groups=()):
+    return {'nodaemon': nodaemon, 'silent': silent, 'maxbytes': maxbytes, 'backups': backups, 'level': level, 'extra': extra,
+            'groups': [list(g) for g in groups]}
+
+
+_P = lambda out, err, kind='p': {'kind': kind, 'out': out, 'err': err}
+_AFTER = [('log', 'AFTER-%d' % i) for i in range(5)]
+
+WORLD_CORPUS = [
+    # the activity logger in every make_logger configuration: messages, clearLog, five more messages
+    # (seeded change: clearLog stops after the first handler that has reopen(); foreground mode has stdout first)
+    (_world(nd, sl, mb, N), [('log', 'BEFORE-1'), ('log', 'BEFORE-2'), ('clearlog',)] + _AFTER)
+    for nd in (False, True) for sl in (False, True) for mb, N in ((0, 0), (50 * 1024 * 1024, 10), (4096, 0), (100, 2), (100, 0))
+] + [
+    # the same for SIGUSR2 and ServerOptions.reopenlogs() after the log was moved away from outside (logrotate)
+    (_world(nd, False, mb, N), [('log', 'BEFORE-1'), ('extremove', 'act', 0), ('log', 'lost'), (op,)] + _AFTER)
+    for nd in (False, True) for mb, N in ((0, 0), (100, 2), (100, 0)) for op in ('sigusr2', 'optreopen')
+] + [
+    # one more handler without reopen() in front of / behind the others
+    (_world(True, False, 100, 1, extra=ex), [('log', 'a'), ('clearlog',), ('log', 'b'), ('sigusr2',), ('log', 'c')]) for ex in ('front', 'back')
+] + [
+    # processes: two groups, three processes (one an event listener, one with stderr redirected, one without an stderr log)
+    (_world(True, False, 150, 1, groups=[[_P([8, 1], [0, 0]), _P([4, 0], 'x', 'l')], [_P([0, 0], None)]]),
+     [('chunk', 0, 0, 'o', b'abcdef'), ('chunk', 0, 0, 'e', b'E1'), ('chunk', 0, 1, 'o', b'xy'), ('chunk', 1, 0, 'o', b'second'),
+      ('clearproc', 0, 0), ('chunk', 0, 0, 'o', b'gh'), ('chunk', 0, 0, 'e', b'E2'), ('chunk', 0, 1, 'o', b'z'),
+      ('clearall',), ('chunk', 0, 0, 'o', b'ij'), ('chunk', 0, 1, 'o', b'w'), ('chunk', 1, 0, 'o', b'third'), ('chunk', 1, 0, 'e', b'nolog'),
+      ('extremove', '0.0.o', 0), ('extremove', '1.0.o', 0), ('extremove', 'act', 0), ('sigusr2',),
+      ('chunk', 0, 0, 'o', b'kl'), ('chunk', 0, 0, 'e', b'E3'), ('chunk', 0, 1, 'o', b'v'), ('chunk', 1, 0, 'o', b'fourth'), ('log', 'end')]),
+    # child output copied into the activity log (log level debug) around a clearLog
+    (_world(True, False, 200, 1, level='DEBG', groups=[[_P([16, 1], [0, 0])]]),
+     [('chunk', 0, 0, 'o', b'one'), ('clearlog',), ('chunk', 0, 0, 'o', b'two'), ('chunk', 0, 0, 'e', b'three'), ('log', 'x'), ('sigusr2',),
+      ('chunk', 0, 0, 'o', b'four'), ('log', 'y')]),
+    # clearLog while the file is not there: the documented NO_FILE answer, nothing else happens
+    (_world(False, False, 0, 0), [('log', 'a'), ('extremove', 'act', 0), ('clearlog',), ('log', 'b'), ('optreopen',), ('log', 'c')]),
+]
 
 
 class Payload:
@@ -590,10 +798,25 @@ def run(ctx):
     for k in (0, 5, 7, len(R.cases) - 1):
         ctx.sample({'case': R.cases[k][0], 'ops': R.cases[k][1][:6], 'impl': R.impls[k][:6]})
     ctx.correspond('rotate', R.cases, R.impls)
+    # the clear / reopen fan-out through the real make_logger / clearLog / clearProcessLogs / clearAllProcessLogs / SIGUSR2
+    WR = WorldRunner(ctx)
+    for w, ops in WORLD_CORPUS:
+        WR.one(w, list(ops))
+        ctx.count('world-corpus')
+    for _ in range(ctx.n(160, 2500)):
+        w, ops = gen_world(rng)
+        WR.one(w, ops)
+        ctx.count('mix:world')
+    ctx.sample({'case': WR.cases[1][0], 'ops': WR.cases[1][1][:6], 'impl': WR.impls[1][:6]})
+    ctx.correspond('logfan', WR.cases, WR.impls)
 
 
 def replay(ctx, data):
     inp = data['input']
+    if 'world' in inp:
+        from props import c19_world as W
+        WorldRunner(ctx).one(inp['world'], [W.op_unjson(l) for l in inp['ops']])
+        return
     Runner(ctx).one(inp['cfg'], [unlist_op(l) for l in inp['ops']])
 
 
